@@ -330,6 +330,13 @@ def gen_case(r: random.Random, family: str, quick=True) -> dict:
         c["pad"] = [r.choice([0, 0, 1, 2, 3, 5, 8, 13, 21, 34]), r.choice([0, 0, 1, 2, 4, 6, 17, 40])]
         c["strength"] = r.uniform(0.3, 1.2)
         c["semiangle_mrad"] = r.uniform(semi_lo, semi_hi) * 1e3
+        if family == "main" and r.random() < 0.3:
+            # a bright-field disc that reaches or overfills the detector on its short axis: the probe then has
+            # spectral weight in the Nyquist row / column of an even ROI axis, where a sub-pixel shift must
+            # still be the plain shift theorem exp(-2 pi i k s) with k = -1/2
+            nyq_min = min((n // 2) * c["recip"][0] * lam, (m // 2) * c["recip"][1] * lam)
+            c["semiangle_mrad"] = r.uniform(0.95, 1.4) * nyq_min * 1e3
+            c["overfill"] = True
         c["aberr"] = {"C10": r.uniform(-80, 80), "C30": r.choice([0.0, 0.0, 1e4, 5e4]), "C12": r.choice([0.0, r.uniform(0, 30)]),
                       "phi12": r.uniform(0, 3)}
         if family == "constant-control":
@@ -342,6 +349,11 @@ def gen_case(r: random.Random, family: str, quick=True) -> dict:
     w = [w[i] * (0.55 ** i) for i in range(len(w))]
     c["weights"] = [x / sum(w) for x in w]
     c["orthogonalize"] = r.random() < 0.5
+    if c.get("overfill"):
+        # the reference modes (aperture x 1, k_r, k_c) are mutually orthogonal by the inversion symmetry of the
+        # aperture; an aperture that includes the one-sided Nyquist row / column is not inversion symmetric, so
+        # the library's orthogonalisation constraint would (rightly) change the modes: keep it switched off
+        c["orthogonalize"] = False
     c["probe_pert"] = "amplitude" if c["even_obj"] else r.choice(["defocus", "amplitude"])
     return c
 
@@ -470,7 +482,8 @@ def run_case(c: dict, want_arrays=False) -> CaseResult:
     offi = offi.astype(int)
     # 2. simulate
     r = random.Random(c["seed"])
-    psi_k = sim.probe_fourier_modes(roi, recip, energy, c["semiangle_mrad"], c["aberr"], nm, c["weights"], I0)
+    psi_k = sim.probe_fourier_modes(roi, recip, energy, c["semiangle_mrad"], c["aberr"], nm, c["weights"], I0,
+                                    keep_nyquist=bool(c.get("overfill")))
     param, trans = sim.make_object(r, (h, w), c["slices"], c["kind"], strength=c["strength"], even=c["even_obj"],
                                    kmax=1 if c["even_obj"] else 3)
     if c["even_obj"]:
@@ -964,6 +977,7 @@ def run(ctx: Ctx):
         ctx.dist("family/%s" % family)
         ctx.dist("object_type/%s" % c["kind"])
         ctx.dist("slices/%d" % c["slices"])
+        ctx.dist("aperture/%s" % ("reaches-or-overfills-detector" if c.get("overfill") else "inside-detector"))
         ctx.dist("modes/%d" % c["modes"])
         ctx.dist("roi/%s" % ("odd" if (c["roi"][0] % 2 or c["roi"][1] % 2) else "square" if c["roi"][0] == c["roi"][1] else "non-square"))
         ctx.dist("scan_step/%s" % ("below one pixel" if min(c["step_px"]) < 1 and npos > 1 else "fractional" if frac_step else "integer"))
